@@ -2,7 +2,7 @@
 
 Programs are generated conditional skeletons written as LaTeX *source text*, run through the real tokenizer,
 expansion loop, test primitives and TeX.processIfContent.  Test operands are symbolic: count registers hold
-unbounded z3 integers (so the \\ifcase selector is an unbounded integer), dimen registers z3 reals, \\newif
+unbounded z3 integers (so the \\ifcase selector is an unbounded integer), dimen registers unbounded whole numbers of scaled points, \\newif
 switches z3 booleans, \\ifx characters symbolic letters.  The oracle is a recursive evaluator of TeX's rules."""
 import itertools
 from sxv import api
@@ -32,7 +32,7 @@ BOUNDS = {
 }
 ASSUMPTIONS = ['normal form of DESIGN.md section 3 (complete conditionals, \\or only under \\ifcase, operands are registers so no literal termination issue)',
                'count/dimen registers are given symbolic values by assigning the class attribute `value` (that is where plasTeX stores them)',
-               'floats as reals for \\ifdim operands']
+               'dimen registers hold whole scaled points (as in TeX); \\ifdim compares them after rounding to whole scaled points']
 OUTSIDE = ['mode tests (\\ifvmode, \\ifhmode, \\ifmmode, \\ifinner) are constants in plasTeX and not part of the generated heads',
            'skeletons with more than 3 conditionals except the depth-4 chain family', '\\ifcat, \\if, \\ifcsname']
 BUDGET_S = {'quick': 900, 'thorough': 3300}
@@ -288,13 +288,14 @@ def h_cond(e, family, lo, hi, wrap='none'):
         ctx[r].value = e.num(plasTeX.count, st[r])
     for r in ('da', 'db'):
         ctx.newdimen(r)
-        v = e.real(r)
+        v = e.int(r)                      # TeX's dimen registers hold whole scaled points
         st[r] = v
         if e.symbolic:
-            from sxv.core import RealProxy
-            ctx[r].value = RealProxy(plasTeX.dimen, v)
+            import z3
+            from sxv.core import RealProxy, SymReal
+            ctx[r].value = RealProxy(plasTeX.dimen, SymReal(e, z3.ToReal(v.z)))
         else:
-            ctx[r].value = plasTeX.dimen(v)
+            ctx[r].value = plasTeX.dimen(float(v))
     st['foo'] = e.bool('foo')
     ctx['iffoo'].state = st['foo']
     st['xa'] = e.char('xa', 97, 122)
